@@ -176,6 +176,50 @@ from . import c09 as _c09
 RUNNERS = {"gather_after_check": run_gather_after_check, "repeated_key_column": _c09.run_repeated_key_column, "prefix": run_prefix, "cell": run_cell, "invalid": run_invalid, "cell_history": run_cell_history}
 RUNNERS["recompute"] = recompute.runner("C11")
 
+def run_big(chk, spec):
+	"""sizes at which a join may switch strategy: a right table of thousands of rows against a handful of left rows, with the repeated key among the
+	rows NO left row matches (or among the matched ones, or nowhere); then the same right table again with another expectation / join kind"""
+	import random
+	rng = random.Random(spec["seed"])
+	nr, nl = spec["nr"], spec["nl"]
+	kind = spec["kind"]
+	mk = (lambda i: i) if kind == "int" else (lambda i: f"k{i}")
+	rkeys = list(range(nr))
+	where = spec["dup"]
+	if where == "unmatched":
+		rkeys[nr - 1] = rkeys[nr - 2]                  # left keys are 0..nl-1: never matched
+	elif where == "matched":
+		rkeys[nr - 1] = 0
+	rng.shuffle(rkeys)
+	lk = list(range(nl))
+	if spec["left_dup"]:
+		lk[-1] = lk[0]
+	L = Table({"k": [mk(i) for i in lk], "lid": list(range(nl))})
+	R = Table({"r": [mk(i) for i in rkeys], "rid": list(range(nr))})
+	for how, expect in spec["calls"]:
+		judge_cell(chk, L, R, {"how": how, "expect": expect, "lon": ["k"], "ron": ["r"], "stratum": "cell-history", "variant": f"big-right-dup-{where}", "key_mode": spec["key_mode"]})
+
+
+def run_after_rejected(chk, spec):
+	"""a join that is rejected half-way (an unhashable key in an object key column after some ordinary rows; a left duplicate under one_to_one) leaves
+	nothing behind: the next join - other tables, keys that ARE unique but occur in the rejected call too - is judged on its own keys"""
+	how = spec["how"]
+	import warnings
+	with warnings.catch_warnings():
+		warnings.simplefilter("ignore")
+		# (both key columns are object-typed, so the call gets as far as walking the keys)
+		bad = Table({"k": [1, 2, "one", [3], 4] if spec["why"] == "unhashable" else [1, 2, "one", 2, 4], "x": [0, 1, 2, 3, 4]})
+		other = Table({"r": [1, 2, "one", "two"], "y": ["a", "b", "c", "d"]})
+	first = call(fn_of(bad, how), other, "k", "r", expect=spec["first_expect"])
+	chk.counters["after-rejected:first-raised" if not first.ok else "after-rejected:first-ok"] += 1
+	L = Table({"k": [2, 1, 7], "lid": [0, 1, 2]})
+	R = Table({"r": [1, 2, 9], "rid": [0, 1, 2]})
+	for h2, e2 in spec["calls"]:
+		judge_cell(chk, L, R, {"how": h2, "expect": e2, "lon": ["k"], "ron": ["r"], "stratum": "cell-history", "variant": f"after-rejected-{spec['why']}", "key_mode": "name"})
+
+
+RUNNERS.update({"big": run_big, "after_rejected": run_after_rejected})
+
 
 def realise(rng, lu, ru, variant, kind="int"):
 	"""key columns (1 or 2 per side) realising (left unique?, right unique?) with the duplicate placed per variant"""
@@ -232,6 +276,17 @@ def spec_from_keys(rng, lk, rk, how, expect, variant):
 def run(chk):
 	recompute.add_cases(chk, "C11")
 	rng = chk.rng
+	for nr, nl in (((2048, 5), (4096, 3), (600, 40)) if chk.quick() else ((2048, 5), (2047, 5), (4096, 3), (600, 40), (512, 64), (3000, 300), (20000, 10))):
+		for dup in ("unmatched", "matched", "none"):
+			for kind in ("int", "str"):
+				for left_dup in (False, True):
+					hows = rng.sample(HOWS, len(HOWS))
+					calls = [(hows[0], "one_to_one"), (hows[1 % len(hows)], "many_to_one"), (hows[2 % len(hows)], "many_to_many"), ("full", "one_to_one"), ("inner", "many_to_many"), ("left", "one_to_many"), ("inner", "many_to_one")]
+					chk.case("big", {"nr": nr, "nl": nl, "dup": dup, "kind": kind, "left_dup": left_dup, "calls": calls, "seed": rng.randrange(10**9), "key_mode": rng.choice(["name", "vector"])}, "big")
+	for how in HOWS:
+		for why in ("unhashable", "left-duplicate"):
+			for first_expect in ("one_to_one", "one_to_many", "many_to_one"):
+				chk.case("after_rejected", {"how": how, "why": why, "first_expect": first_expect, "calls": [(h2, e2) for h2 in HOWS for e2 in ("one_to_one", "one_to_many")]}, "after-rejected")
 	idx = 0
 	for how in HOWS:
 		for expect in EXPECTS:
